@@ -99,15 +99,37 @@ func runC21(c *Ctx) {
 	c.Rule("C21.blockdel", "E-GUARD/E-PATH", "a block is deleted only when allocationBlock.empty() returned true, and empty() treats every allocated ordinal whose attribute carries no handle (in particular one in cooldown) as occupying the block", 5)
 	c.Rule("C21.seqopts", "E-FIELDS/E-FLOW", "node controller: allocation.ReleaseOptions() sets every ReleaseOptions field from the allocation; ip/handle/sequenceNumber are read for one ordinal; only ReleaseOptions() results reach ReleaseIPs", 6)
 
-	c21Validate(m)
-	sites := c21Stale(m)
-	c21Idem(m, sites)
-	c21ByHandle(m)
-	c21Cooldown(m)
-	c21Fifo(m)
-	c21NoWrite(m)
-	c21SeqOpts(m)
-	c21BlockDel(m)
+	// Every family runs on its own: an anchor lost by one of them is recorded and
+	// reported at the end, it does not zero its independent siblings.
+	var lost []string
+	var sites []ssa.Instruction
+	c21Isolated(&lost, func() { c21Validate(m) })
+	c21Isolated(&lost, func() { c21Stale(m, &sites) })
+	c21Isolated(&lost, func() { c21Idem(m, sites) })
+	c21Isolated(&lost, func() { c21ByHandle(m) })
+	c21Isolated(&lost, func() { c21Cooldown(m) })
+	c21Isolated(&lost, func() { c21Fifo(m) })
+	c21Isolated(&lost, func() { c21NoWrite(m) })
+	c21Isolated(&lost, func() { c21SeqOpts(m) })
+	c21Isolated(&lost, func() { c21BlockDel(m) })
+	if len(lost) > 0 {
+		c.Lost("%s", strings.Join(lost, " | "))
+	}
+}
+
+// c21Isolated runs one rule family; an anchor it loses is recorded instead of
+// aborting the whole property (the combined loss is raised at the end of the run).
+func c21Isolated(lost *[]string, f func()) {
+	defer func() {
+		if r := recover(); r != nil {
+			al, ok := r.(anchorLost)
+			if !ok {
+				panic(r)
+			}
+			*lost = append(*lost, strings.TrimPrefix(al.msg, "ANCHOR-LOST: "))
+		}
+	}()
+	f()
 }
 
 // ------------------------------------------------------------------ validate --
@@ -181,7 +203,7 @@ func (m *c21Model) storedHandleOrd(v ssa.Value) (ssa.Value, bool) {
 	var ord ssa.Value
 	okAll := true
 	n := 0
-	for _, o := range c21Origins(v, m.throughSanitize) {
+	for _, o := range m.originsX(v, m.throughSanitize) {
 		switch o.Kind {
 		case "const":
 			if cv, isC := constOf(o.V); isC && cv.ExactString() == `""` {
@@ -359,80 +381,234 @@ func c21ErrDynType(v ssa.Value) string {
 	return strings.Join(names, "|")
 }
 
-func c21Stale(m *c21Model) (collect []ssa.Instruction) {
+// c21ErrRet is an error return together with the dynamic error type it hands
+// to the caller of release() (inherited from the helper whose error it passes on).
+type c21ErrRet struct {
+	r   *ssa.Return
+	typ string
+}
+
+// errorOnlyLifted: from block t of the frame's function, every execution ends —
+// in that function and, continuing after each call of the frame's chain with
+// the results of the error return taken, in its callers up to the root — in a
+// return with a non-nil error, and no block mutation is reachable on the way.
+func (m *c21Model) errorOnlyLifted(fr c21Frame, t *ssa.BasicBlock) (rets []c21ErrRet, why string) {
+	rs, w := m.errorOnlyRegion(fr.fn, t)
+	if w != "" {
+		return nil, w
+	}
+	for _, r := range rs {
+		rets = append(rets, c21ErrRet{r, c21ErrDynType(c21ErrOperand(r))})
+	}
+	for i := len(fr.chain) - 1; i >= 0; i-- {
+		call := fr.chain[i]
+		caller := call.Parent()
+		muts := m.mutationsIn(caller)
+		var up []c21ErrRet
+		seen := map[*ssa.Return]bool{}
+		for _, er := range rets {
+			region, start := m.continuation(call, er.r)
+			after := func(in ssa.Instruction) bool {
+				b := in.Block()
+				if b != start {
+					return region[b]
+				}
+				if region[b] {
+					return true // the call's block is re-entered (loop)
+				}
+				ci, ii := -1, -1
+				for k, x := range b.Instrs {
+					if x == ssa.Instruction(call) {
+						ci = k
+					}
+					if x == in {
+						ii = k
+					}
+				}
+				return ii > ci
+			}
+			for _, mu := range muts {
+				if mu != ssa.Instruction(call) && after(mu) {
+					return nil, "after the helper's error return, block mutation at " + m.p.Pos(mu.Pos()) + " is reachable in " + fnName(caller)
+				}
+			}
+			n := 0
+			for _, r := range returnsOf(caller) {
+				if !after(r) {
+					continue
+				}
+				n++
+				e := c21ErrOperand(r)
+				if e == nil || isNilConst(e) {
+					return nil, "after the helper's error return, a success return at " + m.p.Pos(r.Pos()) + " is reachable in " + fnName(caller)
+				}
+				if seen[r] {
+					continue
+				}
+				seen[r] = true
+				typ := c21ErrDynType(e)
+				passes := true
+				for _, o := range origins(e, nil) {
+					if o.V != ssa.Value(call) {
+						passes = false
+					}
+				}
+				if passes {
+					typ = er.typ // the helper's error is handed on unchanged
+				}
+				up = append(up, c21ErrRet{r, typ})
+			}
+			if n == 0 {
+				return nil, "after the helper's error return no return of " + fnName(caller) + " is reachable"
+			}
+		}
+		rets = up
+	}
+	return rets, ""
+}
+
+// c21StaleHit is one place (function of release()'s closure + call string)
+// where the request is compared with the stored sequence number / handle.
+type c21StaleHit struct {
+	fr      c21Frame
+	targets []*ssa.BasicBlock
+	ords    []ssa.Value
+}
+
+type c21StaleVerdict struct {
+	undecided string
+	ok        bool
+	text      string
+	regionOK  bool
+	rets      []c21ErrRet
+	sites     []ssa.Instruction
+}
+
+// c21JudgeStale decides one hit (run with the hit's call string as resolution
+// context).
+func c21JudgeStale(m *c21Model, rel *ssa.Function, kind string, h c21StaleHit, mk func(ssa.Value) EdgePred) (v c21StaleVerdict) {
+	where := fnName(h.fr.fn)
+	ord := h.ords[0]
+	for _, o := range h.ords {
+		if !c21SameValue(o, ord) {
+			v.undecided = "comparisons for different ordinals in " + where
+			return
+		}
+	}
+	// the ordinal must be the one computed from the request's address
+	if !m.fromIPToOrdinal(ord, h.fr.chain, 0) {
+		v.text = fmt.Sprintf("the %s comparison in %s is not made for the ordinal returned by IPToOrdinal (got %s)", kind, where, path(ord))
+		return
+	}
+	topOrd, ok := m.toRootX(ord, rel)
+	if !ok {
+		v.undecided = "the ordinal compared in " + where + " cannot be related to a value of release() (neither a parameter nor a result of the helper)"
+		return
+	}
+	v.sites = m.collectSites(rel, topOrd)
+	if len(v.sites) == 0 {
+		m.c.Lost("allocationBlock.release: no site collecting the ordinal for release")
+	}
+	guarded := true
+	for _, s := range v.sites {
+		if !m.established(s, topOrd, mk) {
+			guarded = false
+		}
+	}
+	v.regionOK = true
+	var why string
+	for _, t := range h.targets {
+		rs, w := m.errorOnlyLifted(h.fr, t)
+		if w != "" {
+			v.regionOK = false
+			why = w
+		}
+		v.rets = append(v.rets, rs...)
+	}
+	if guarded || v.regionOK {
+		v.ok = true
+		v.text = fmt.Sprintf("%s mismatch (compared in %s): collection guarded by match=%v, mismatch edge aborts without mutation=%v", kind, where, guarded, v.regionOK)
+	} else {
+		v.text = fmt.Sprintf("a request with a stale %s can still release the address: the ordinal is collected for release without a dominating match test, and after the mismatch edge in %s %s", kind, where, why)
+	}
+	return
+}
+
+// c21Stale reports the collection sites through *collect as it finds them, so
+// that an anchor lost for one kind does not take C21.idem with it.
+func c21Stale(m *c21Model, collect *[]ssa.Instruction) {
 	c, p := m.c, m.p
 	fn := m.fn(c21IpamPkg, "allocationBlock.release")
 	site := p.Pos(fn.Pos())
-	var theOrd ssa.Value
+	// The comparisons are located by what they compare, in release() itself or
+	// in any lib/ipam helper it (transitively) calls; each call string is a
+	// frame of its own.
+	frames := m.frames(fn, nil)
+	seenSite := map[ssa.Instruction]bool{}
+	var lost []string
 	for _, kind := range []string{"sequence", "handle"} {
-		targets, ords := m.mismatchEdges(fn, kind)
-		if len(targets) == 0 {
-			c.Lost("allocationBlock.release: no comparison of ReleaseOptions %s with the stored value found", kind)
+		var hits []c21StaleHit
+		for _, fr := range frames {
+			m.withFrame(fr, func() {
+				if targets, ords := m.mismatchEdges(fr.fn, kind); len(targets) > 0 {
+					hits = append(hits, c21StaleHit{fr, targets, ords})
+				}
+			})
 		}
-		ord := ords[0]
-		for _, o := range ords {
-			if !c21SameValue(o, ord) {
-				c.Undecided("C21.stale/release/"+kind, site, "comparisons for different ordinals")
-				return
-			}
-		}
-		// the ordinal must be the one computed from the request's address
-		okOrd := false
-		for _, o := range origins(ord, nil) {
-			if call, isCall := o.V.(*ssa.Call); isCall && calleeOf(call.Common()) == m.ipToOrdinal {
-				okOrd = true
-			} else {
-				okOrd = false
-				break
-			}
-		}
-		if !okOrd {
-			c.Violate("C21.stale/release/"+kind, site, "the %s comparison is not made for the ordinal returned by IPToOrdinal (got %s)", kind, path(ord))
+		if len(hits) == 0 {
+			lost = append(lost, fmt.Sprintf("allocationBlock.release (and the lib/ipam helpers it calls): no comparison of ReleaseOptions %s with the stored value found", kind))
 			continue
 		}
-		theOrd = ord
-		sites := m.collectSites(fn, ord)
-		if len(sites) == 0 {
-			c.Lost("allocationBlock.release: no site collecting the ordinal for release")
-		}
-		collect = sites
-		pred := m.seqMatch(ord)
+		mk := m.seqMatch
 		if kind == "handle" {
-			pred = m.handleMatch(ord)
+			mk = m.handleMatch
 		}
-		guarded := true
-		for _, s := range sites {
-			if !guardedCut(s, pred) {
-				guarded = false
+		okAll, regionAll, undecided := true, true, ""
+		var okText, badText []string
+		var allRets []c21ErrRet
+		for _, h := range hits {
+			var v c21StaleVerdict
+			m.withFrame(h.fr, func() { v = c21JudgeStale(m, fn, kind, h, mk) })
+			for _, s := range v.sites {
+				if !seenSite[s] {
+					seenSite[s] = true
+					*collect = append(*collect, s)
+				}
 			}
-		}
-		regionOK := true
-		var why string
-		var rets []*ssa.Return
-		for _, t := range targets {
-			rs, w := m.errorOnlyRegion(fn, t)
-			if w != "" {
-				regionOK = false
-				why = w
+			if v.undecided != "" {
+				undecided = v.undecided
+				break
 			}
-			rets = append(rets, rs...)
+			if v.ok {
+				okText = append(okText, v.text)
+			} else {
+				okAll = false
+				badText = append(badText, v.text)
+			}
+			if !v.regionOK {
+				regionAll = false
+			}
+			allRets = append(allRets, v.rets...)
 		}
-		c.Check(guarded || regionOK, "C21.stale/release/"+kind, site,
-			fmt.Sprintf("%s mismatch: collection guarded by match=%v, mismatch edge aborts without mutation=%v", kind, guarded, regionOK),
-			fmt.Sprintf("a request with a stale %s can still release the address: the ordinal is collected for release without a dominating match test, and after the mismatch edge %s", kind, why))
-		if regionOK {
+		if undecided != "" {
+			c.Undecided("C21.stale/release/"+kind, site, "%s", undecided)
+			continue
+		}
+		c.Check(okAll, "C21.stale/release/"+kind, site, strings.Join(okText, "; "), strings.Join(badText, "; "))
+		if okAll && regionAll {
 			badT := ""
-			for _, r := range rets {
-				if t := c21ErrDynType(c21ErrOperand(r)); t != "ErrorResourceUpdateConflict" {
-					badT = t
+			for _, er := range allRets {
+				if er.typ != "ErrorResourceUpdateConflict" {
+					badT = er.typ
 				}
 			}
 			c.Check(badT == "", "C21.stale/release/"+kind+"-conflict-error", site,
 				"mismatch returns cerrors.ErrorResourceUpdateConflict", "mismatch returns "+badT+" instead of ErrorResourceUpdateConflict (callers treat only conflicts as 'stale, re-evaluate')")
 		}
 	}
-	_ = theOrd
-	return collect
+	if len(lost) > 0 {
+		c.Lost("%s", strings.Join(lost, " | "))
+	}
 }
 
 // ---------------------------------------------------------------------- idem --
@@ -457,23 +633,29 @@ func c21Idem(m *c21Model, sites []ssa.Instruction) {
 			c.Undecided("C21.idem/release", p.Pos(s.Pos()), "cannot identify the collected ordinal")
 			continue
 		}
-		allocated := guardedCut(s, func(cond ssa.Value, pol bool) bool {
-			x, isNil, ok := c21NilCmp(cond, pol)
-			if !ok || isNil {
-				return false
+		// (established: in release() itself, or inside a helper whose results the
+		// collection is conditional on)
+		allocated := m.established(s, ord, func(ord ssa.Value) EdgePred {
+			return func(cond ssa.Value, pol bool) bool {
+				x, isNil, ok := c21NilCmp(cond, pol)
+				if !ok || isNil {
+					return false
+				}
+				o, ok := m.allocElem(x)
+				return ok && c21SameValue(o, ord)
 			}
-			o, ok := m.allocElem(x)
-			return ok && c21SameValue(o, ord)
 		})
 		c.Check(allocated, "C21.idem/release/allocated", p.Pos(s.Pos()),
 			"collection guarded by Allocations[ord] != nil", "an unallocated ordinal can be collected for release (Allocations[ord] != nil is not established)")
-		cool := guardedCut(s, func(cond ssa.Value, pol bool) bool {
-			x, isNil, ok := c21NilCmp(cond, pol)
-			if !ok || !isNil {
-				return false
+		cool := m.established(s, ord, func(ord ssa.Value) EdgePred {
+			return func(cond ssa.Value, pol bool) bool {
+				x, isNil, ok := c21NilCmp(cond, pol)
+				if !ok || !isNil {
+					return false
+				}
+				o, ok := m.attrFieldOrd(x, m.fReleasedAt)
+				return ok && c21SameValue(o, ord)
 			}
-			o, ok := m.attrFieldOrd(x, m.fReleasedAt)
-			return ok && c21SameValue(o, ord)
 		})
 		c.Check(cool, "C21.idem/release/not-in-cooldown", p.Pos(s.Pos()),
 			"collection guarded by Attributes[*Allocations[ord]].ReleasedAt == nil", "an address that is already released (in cooldown) is released again: ReleasedAt == nil is not established before the ordinal is collected (restarts the cooldown, fails handle validation)")
@@ -647,38 +829,63 @@ func c21Cooldown(m *c21Model) {
 	addCool := m.fn(c21IpamPkg, "allocationBlock.addCooldownAttribute")
 	gc := m.fn(c21IpamPkg, "allocationBlock.garbageCollect")
 
-	// (1) release paths only redirect ordinals to a fresh cooldown attribute.
+	// The five parts are independent: an anchor lost by one is raised at the end.
+	var lost []string
+	defer func() {
+		if len(lost) > 0 {
+			c.Lost("%s", strings.Join(lost, " | "))
+		}
+	}()
+
+	// (1) release paths only redirect ordinals to a fresh cooldown attribute.  The
+	// stores are looked for in the release function and in the lib/ipam helpers it
+	// calls (each call string; garbageCollect and addCooldownAttribute have
+	// their own obligations below), the stored value is resolved through helper
+	// parameters and results.
+	isAnchor := func(f *ssa.Function) bool { return f == gc || f == addCool }
 	for _, name := range []string{"release", "releaseByHandle"} {
-		fn := m.fn(c21IpamPkg, "allocationBlock."+name)
-		stores := m.allocStores(fn)
-		if len(stores) == 0 {
-			c.Lost("allocationBlock.%s: no store into Allocations", name)
-		}
-		for _, as := range stores {
-			nCall, bad := 0, ""
-			for _, o := range origins(as.St.Val, nil) {
-				switch {
-				case o.Kind == "call" && calleeFn(o.V.(*ssa.Call).Common()) == addCool:
-					nCall++
-				case o.Kind == "const" && isNilConst(o.V):
-					// initial value of a lazily created marker
-				default:
-					bad = o.Kind + " " + path(o.V)
-				}
+		c21Isolated(&lost, func() {
+			fn := m.fn(c21IpamPkg, "allocationBlock."+name)
+			n := 0
+			seen := map[*ssa.Store]bool{}
+			for _, fr := range m.frames(fn, isAnchor) {
+				m.withFrame(fr, func() {
+					for _, as := range m.allocStores(fr.fn) {
+						n++
+						nCall, bad := 0, ""
+						for _, o := range m.originsXStop(as.St.Val, nil, isAnchor) {
+							switch {
+							case o.Kind == "call" && calleeFn(o.V.(*ssa.Call).Common()) == addCool:
+								nCall++
+							case o.Kind == "const" && isNilConst(o.V):
+								// initial value of a lazily created marker
+							default:
+								bad = o.Kind + " " + path(o.V)
+							}
+						}
+						if seen[as.St] && bad == "" && nCall > 0 {
+							continue // same store, another call string, same verdict
+						}
+						seen[as.St] = true
+						c.Check(bad == "" && nCall > 0, "C21.cooldown/"+name+"/marks", p.Pos(as.St.Pos()),
+							"Allocations[ord] is redirected to the result of addCooldownAttribute()", "release stores "+bad+" into Allocations[ord] instead of a cooldown attribute index (address skips the cooldown state)")
+					}
+				})
 			}
-			c.Check(bad == "" && nCall > 0, "C21.cooldown/"+name+"/marks", p.Pos(as.St.Pos()),
-				"Allocations[ord] is redirected to the result of addCooldownAttribute()", "release stores "+bad+" into Allocations[ord] instead of a cooldown attribute index (address skips the cooldown state)")
-		}
+			if n == 0 {
+				c.Lost("allocationBlock.%s (and the lib/ipam helpers it calls): no store into Allocations", name)
+			}
+		})
 	}
 
 	// (2) addCooldownAttribute appends {ReleasedAt: &Now()} and returns its index.
-	c21AddCooldown(m, addCool)
+	c21Isolated(&lost, func() { c21AddCooldown(m, addCool) })
 
 	// (3) who may put ordinals on Unallocated.
-	c21UnallocatedOwners(m, gc)
+	c21Isolated(&lost, func() { c21UnallocatedOwners(m, gc) })
 
 	// (4) garbageCollect: dealloc only when released and cooled down.
-	c21GCGuard(m, gc)
+	c21Isolated(&lost, func() { c21GCGuard(m, gc) })
 
 	// (5) autoAssign hands out only ordinals read from Unallocated; assign refuses non-free.
 	aa := m.fn(c21IpamPkg, "allocationBlock.autoAssign")
